@@ -445,6 +445,7 @@ fn strip_digits(s: &str) -> String {
 }
 
 pub fn run(args: &Args) -> i32 {
+    if args.has_flag("--l2-errors-child") { return crate::props::c11_l2::errors_child(args); }
     let rep = Arc::new(Reporter::new(
         args,
         "exploration",
@@ -462,5 +463,6 @@ pub fn run(args: &Args) -> i32 {
     codec_part(&rep, args);
     reply_part(&rep, args);
     crate::props::c11_l2::run_l2(&rep, args);
+    crate::props::c11_l2::run_errors(&rep, args);
     rep.finish()
 }
